@@ -353,6 +353,17 @@ def ob_block(blocks_mod, name, index):
         if ob.kind.startswith("pre-sat"):
             return {"status": "error", "backend": backend, "detail": "vacuity guard: the block precondition of %s is unsatisfiable" % name}
         return proved(backend, "branch unreachable on this (joined) path")
+    if verdict in ("unknown", "refuted"):
+        # look for a small concrete input on which the REAL block text violates its contract (bounded-instance model search + native replay, vlib/vbounded.py)
+        from vlib import vbounded as VBD
+
+        args, msg = VBD.search(blocks_mod, name, ob.name)
+        if args is not None:
+            return violated("block contract of %s: %s not established (%s) and the real block violates its contract on a small input: %s" % (name, ob.name, verdict, msg),
+                            witness=args, backend=backend + "+z3(bounded instance)",
+                            replay={"callable": "vlib.vbounded:replay_block_input", "kwargs": {"blocks_mod": blocks_mod, "name": name, "args": args}, "confirmed": True,
+                                    "block_source": src},
+                            signature="block/%s/%s" % (name, ob.kind.split("[")[0]))
     if verdict == "refuted" and opaque:
         # the block was executed with unconstrained values for expressions outside the subset: a counter-model may be an artefact of that over-approximation
         return undecided("block contract of %s not established (%s finds a counter-model, but expressions %s were over-approximated by unconstrained values): %s"
